@@ -82,7 +82,7 @@ def one_case(rep, scn, k, kp, heights, tm):
     try:
         if scn.get("reuse"):
             # the subgraph is re-used the way the models re-use it: arcs for another (larger) k first, destroyed, then the judged call.
-            # Everything per sample starts afresh; only the bound is, by the code's design, a running maximum.
+            # Everything starts afresh, the bound included.
             sg.create_arcs(int(scn["reuse"]), *args)
             sg.destroy_arcs()
             prev = float(sg.density)
